@@ -80,12 +80,15 @@
         return result; \
     } \
 \
-    if (ISDIGIT(brs[1])) { /* ip address, possibly ipv4 */ \
+    if (ISDIGIT(brs[1])) { /* ipv4, or ipv6 without the tag */ \
         if (is_ipaddr (brs + 1, bre) == 0) { \
             result->rc = inverse(EEAV_IPADDR_INVALID); \
             return result; \
         } \
-        result->is_ipv4 = true; \
+        if (memchr (brs + 1, ':', bre - brs - 1) != NULL) \
+            result->is_ipv6 = true; \
+        else \
+            result->is_ipv4 = true; \
     } \
     else { /* IPv6-addr-literal = "IPv6:" IPv6-addr */ \
         if ((strncasecmp (brs + 1, "IPv6:", 5) != 0) || \
